@@ -23,6 +23,8 @@
 import LispModel.Eval
 import LispModel.Proofs.EvalBasic
 import LispModel.Proofs.EvalLaws
+import LispModel.Spec.BigStep
+import LispModel.Proofs.BigStepRefine
 import LispModel.Proofs.EvalStoreWF
 namespace LispModel.Props.C01
 open LispModel LispModel.Core
@@ -685,5 +687,316 @@ example : (match (run (L [S "let", L [S "x", I 1], L [S "fn", L [S "y"], S "x"]]
 example : StateWF initState ∧ 0 < initState.scopes.size := ⟨initState_StateWF, by decide⟩
 
 /-! ### END D1 -/
+
+/-! ### BEGIN D5 — the textbook big-step semantics `sem` (`Spec/BigStep.lean`) and the evaluator coincide
+
+  `sem F st env form` is a definitional interpreter written the textbook way (one recursive call per
+  sub-evaluation, pattern matching on the form; no loop, no `a1/a2` index arithmetic, no polls, no depth,
+  no debugger).  It delegates to `eval` what is outside the core fragment — a form whose head symbol is
+  bound to a macro, `quasiquote(expand)`, `defmacro`, `macroexpand`, `try`, hash-map literals — and
+  applies builtins by `callBuiltin` (the callback-taking builtins call back into `eval`).  Because the
+  macro test is part of `sem`, the refinement theorems need NO macro side condition: they hold for ALL
+  forms, under the standing conditions "debugger off, not cancelled" only.
+  `SameUpToPolls a b`: the stores agree in `scopes`, `atoms`, `trace`, `cancelAt`, `stepper` — in
+  everything but the poll counter `ticks` and the `depth!` marks (`sem` polls nothing and has no depth).
+  The rules of `sem` below (`NotMacro` = the special-form name is not shadowed by a user macro) ARE the
+  language definition; by the refinement theorems they are what the evaluator computes. -/
+
+section D5
+open LispModel.Spec.BigStep
+
+/-- the evaluator refines the definition: every finished run of `sem` is matched by `eval` — with some
+    fuel, at any depth `d` — with the same value or error and the same store up to polls (in particular
+    the same ordered effect trace) -/
+theorem eval_refines_sem {st : State} (hc : st.cancelAt = none) (hs : st.stepper = none)
+    {F env : Nat} {ast : Val} {r : Res Val} {st' : State}
+    (h : sem F st env ast = (r, st')) (hne : r ≠ .oof) (d : Nat) :
+    ∃ F' st'', eval F' st env ast d = (r, st'') ∧ SameUpToPolls st' st'' :=
+  Proofs.BigStepRefine.eval_refines_sem_upto hc hs (Proofs.BigStepRefine.sameUpToPolls_refl st) h hne d
+
+/-- … and the definition refines the evaluator: every finished run of `eval` is matched by `sem` -/
+theorem sem_refines_eval {st : State} (hc : st.cancelAt = none) (hs : st.stepper = none)
+    {F env d : Nat} {ast : Val} {r : Res Val} {st'' : State}
+    (h : eval F st env ast d = (r, st'')) (hne : r ≠ .oof) :
+    ∃ F' st', sem F' st env ast = (r, st') ∧ SameUpToPolls st' st'' :=
+  Proofs.BigStepRefine.sem_refines_eval_upto hc hs (Proofs.BigStepRefine.sameUpToPolls_refl st) h hne
+
+/-- both, from start stores that agree up to polls (so the theorems compose along a run) -/
+theorem eval_refines_sem_upto {st₁ st₂ : State} (hc : st₁.cancelAt = none) (hs : st₁.stepper = none)
+    (hst : SameUpToPolls st₁ st₂) {F env : Nat} {ast : Val} {r : Res Val} {st' : State}
+    (h : sem F st₁ env ast = (r, st')) (hne : r ≠ .oof) (d : Nat) :
+    ∃ F' st'', eval F' st₂ env ast d = (r, st'') ∧ SameUpToPolls st' st'' :=
+  Proofs.BigStepRefine.eval_refines_sem_upto hc hs hst h hne d
+
+theorem sem_refines_eval_upto {st₁ st₂ : State} (hc : st₁.cancelAt = none) (hs : st₁.stepper = none)
+    (hst : SameUpToPolls st₁ st₂) {F env d : Nat} {ast : Val} {r : Res Val} {st'' : State}
+    (h : eval F st₂ env ast d = (r, st'')) (hne : r ≠ .oof) :
+    ∃ F' st', sem F' st₁ env ast = (r, st') ∧ SameUpToPolls st' st'' :=
+  Proofs.BigStepRefine.sem_refines_eval_upto hc hs hst h hne
+
+/-- whatever the definition says is what the evaluator computes: a finished run of `sem` and a finished
+    run of `eval` (any fuels, any depth) have the same result and the same store up to polls -/
+theorem sem_and_eval_agree {st : State} (hc : st.cancelAt = none) (hs : st.stepper = none)
+    {F F' env d : Nat} {ast : Val} {r r' : Res Val} {s s' : State}
+    (h : sem F st env ast = (r, s)) (hne : r ≠ .oof) (h' : eval F' st env ast d = (r', s')) (hne' : r' ≠ .oof) :
+    r = r' ∧ SameUpToPolls s s' :=
+  Proofs.BigStepRefine.sem_eval_agree hc hs h hne h' hne'
+
+/-- the fuel of `sem` only bounds the recursion -/
+theorem sem_result_independent_of_fuel {F F' : Nat} (hle : F ≤ F') {st : State} {env : Nat} {ast : Val}
+    {r : Res Val} {s : State} (h : sem F st env ast = (r, s)) (hne : r ≠ .oof) : sem F' st env ast = (r, s) :=
+  Proofs.BigStepRefine.sem_fuel_le hle h hne
+
+/-- evaluation depends neither on the poll counter, nor on the `depth!` marks, nor on the depth -/
+theorem eval_insensitive_to_polls_and_depth {st₁ st₂ : State} (hc : st₁.cancelAt = none) (hs : st₁.stepper = none)
+    (hst : SameUpToPolls st₁ st₂) {F env d : Nat} {ast : Val} {r : Res Val} {s : State}
+    (h : eval F st₁ env ast d = (r, s)) (d' : Nat) :
+    ∃ s', eval F st₂ env ast d' = (r, s') ∧ SameUpToPolls s s' :=
+  let ⟨s', h', he⟩ := (Proofs.BigStepIns.ins F).eval (Proofs.BigStepRefine.eqv_of_sameUpToPolls hst hc hs) h d'
+  ⟨s', h', Proofs.BigStepRefine.sameUpToPolls_of_eqv he⟩
+
+/-! the rules of the definition, in the property's words -/
+
+/-- lexical scoping: a symbol is looked up from the current scope; a symbol bound nowhere is an error -/
+theorem symbol_is_a_lookup (s : String) (p : Option Pos) :
+    sem (F+1) st env (.sym s p) =
+      match st.get env s with
+      | some v => (.ok v, st)
+      | none => (.err (.lisp (.goerr ("symbol '" ++ s ++ "' not found")) p), st) :=
+  Proofs.BigStepRefine.sem_symbol s p
+
+/-- the innermost binding wins: if the current scope itself binds `k`, that is the value -/
+theorem innermost_binding_wins {sc : Scope} {k : String} {v : Val} (p : Option Pos)
+    (hsc : st.scopes[env]? = some sc) (hk : alookup k sc.data = some v) :
+    sem (F+1) st env (.sym k p) = (.ok v, st) := by
+  rw [Proofs.BigStepRefine.sem_symbol, Proofs.EvalLaws.get_innermost hsc hk]
+
+/-- `(def name x)` evaluates `x`, binds the value to `name` in the CURRENT scope and returns it; an
+    error of `x` is the error of the `def` and nothing is bound -/
+theorem def_binds_current_scope_returns_value (hm : NotMacro st env "def")
+    (name : String) (pn : Option Pos) (x : Val) (rest : List Val) :
+    sem (F+1) st env (.list (.sym "def" p0 :: .sym name pn :: x :: rest) pos) =
+      match sem F st env x with
+      | (.ok v, st1) => (.ok v, st1.set env name v)
+      | r => r :=
+  Proofs.BigStepRefine.sem_def hm name pn x rest
+
+/-- a `def` target that is not a symbol is an error (raised after `x` has been evaluated) -/
+theorem def_target_must_be_a_symbol (hm : NotMacro st env "def") (target : Val)
+    (ht : ∀ n p, target ≠ .sym n p) (x : Val) (rest : List Val) :
+    sem (F+1) st env (.list (.sym "def" p0 :: target :: x :: rest) pos) =
+      match sem F st env x with
+      | (.ok _, st1) => (.err (newLispError (.plain "cannot use value as identifier")
+                                (.list (.sym "def" p0 :: target :: x :: rest) pos)), st1)
+      | r => r :=
+  Proofs.BigStepRefine.sem_def_non_symbol hm target ht x rest
+
+/-- `(let (x₁ e₁ …) body…)`: ONE child scope of the current scope (its id is `st.scopes.size`) receives
+    the bindings one after the other (next theorem); the body forms are evaluated there -/
+theorem let_opens_one_child_scope (hm : NotMacro st env "let") (bindings : Val) (bs body : List Val)
+    (hb : seqOf? bindings = some bs) (heven : bs.length % 2 = 0) :
+    sem (F+1) st env (.list (.sym "let" p0 :: bindings :: body) pos) =
+      match semBinds F (st.newScope env []).1 st.scopes.size bs bindings with
+      | (.ok _, st2) => semBody F st2 st.scopes.size body
+      | r => r :=
+  Proofs.BigStepRefine.sem_let hm bindings bs body hb heven
+
+/-- `let` is sequential: each value form is evaluated IN the `let` scope, after the earlier bindings of
+    the same `let` have been made there; an error stops the later bindings -/
+theorem let_is_sequential (letEnv : Nat) (name : String) (pn : Option Pos) (x : Val) (rest : List Val) (a1 : Val) :
+    semBinds (F+1) st letEnv (.sym name pn :: x :: rest) a1 =
+      match sem F st letEnv x with
+      | (.ok v, st1) => semBinds F (st1.set letEnv name v) letEnv rest a1
+      | r => r :=
+  Proofs.BigStepRefine.semBinds_cons letEnv name pn x rest a1
+
+theorem let_bindings_end (letEnv : Nat) (a1 : Val) : semBinds (F+1) st letEnv [] a1 = (.ok .nil, st) :=
+  Proofs.BigStepRefine.semBinds_nil letEnv a1
+
+/-- an odd number of elements in the binding vector is an error (the child scope already exists) -/
+theorem let_odd_bindings_error (hm : NotMacro st env "let") (bindings : Val) (bs body : List Val)
+    (hb : seqOf? bindings = some bs) (hodd : bs.length % 2 ≠ 0) :
+    sem (F+1) st env (.list (.sym "let" p0 :: bindings :: body) pos) =
+      (.err (newLispError (.plain "let: odd elements on binding vector") bindings), (st.newScope env []).1) :=
+  Proofs.BigStepRefine.sem_let_odd hm bindings bs body hb hodd
+
+/-- a binding target that is not a symbol is an error; its value form is not evaluated -/
+theorem let_non_symbol_binding_error (letEnv : Nat) (b : Val) (hb : ∀ n p, b ≠ .sym n p) (x : Val)
+    (rest : List Val) (a1 : Val) :
+    semBinds (F+1) st letEnv (b :: x :: rest) a1 = (.err (newLispError (.plain "non-symbol bind value") a1), st) :=
+  Proofs.BigStepRefine.semBinds_non_symbol letEnv b hb x rest a1
+
+/-- `(do body…)` — and so the body of a `let` and of a closure: the forms in order, … -/
+theorem do_is_its_body (hm : NotMacro st env "do") (body : List Val) :
+    sem (F+1) st env (.list (.sym "do" p0 :: body) pos) = semBody F st env body :=
+  Proofs.BigStepRefine.sem_do hm body
+
+/-- … each evaluated once, an error stops the later forms, the value is that of the LAST form, and no
+    form at all gives `nil` -/
+theorem body_forms_in_order_last_value (x y : Val) (rest : List Val) :
+    semBody (F+1) st env [] = (.ok .nil, st) ∧
+    semBody (F+1) st env [x] = sem F st env x ∧
+    semBody (F+1) st env (x :: y :: rest) =
+      (match sem F st env x with
+       | (.ok _, st1) => semBody F st1 env (y :: rest)
+       | r => r) :=
+  ⟨Proofs.BigStepRefine.semBody_nil, Proofs.BigStepRefine.semBody_last x, Proofs.BigStepRefine.semBody_cons x y rest⟩
+
+/-- `(if c t e)`: the condition, then exactly ONE of the branches (only `nil` and `false` are falsy:
+    `only_nil_and_false_falsy`); an error of the condition is the error of the `if` -/
+theorem if_evaluates_one_branch (hm : NotMacro st env "if") (c t e : Val) (rest : List Val) :
+    sem (F+1) st env (.list (.sym "if" p0 :: c :: t :: e :: rest) pos) =
+      match sem F st env c with
+      | (.ok v, st1) => if truthy v then sem F st1 env t else sem F st1 env e
+      | r => r :=
+  Proofs.BigStepRefine.sem_if hm c t e rest
+
+/-- `(if c t)`: a falsy condition gives `nil` -/
+theorem if_without_else (hm : NotMacro st env "if") (c t : Val) :
+    sem (F+1) st env (.list [.sym "if" p0, c, t] pos) =
+      match sem F st env c with
+      | (.ok v, st1) => if truthy v then sem F st1 env t else (.ok .nil, st1)
+      | r => r :=
+  Proofs.BigStepRefine.sem_if_no_else hm c t
+
+/-- `(quote x)` is `x`, unevaluated -/
+theorem quote_returns_operand (hm : NotMacro st env "quote") (x : Val) (rest : List Val) :
+    sem (F+1) st env (.list (.sym "quote" p0 :: x :: rest) pos) = (.ok x, st) :=
+  Proofs.BigStepRefine.sem_quote hm x rest
+
+/-- `(fn params body…)` is a closure that captures the scope `env` it is evaluated in; nothing is evaluated -/
+theorem fn_captures_defining_scope (hm : NotMacro st env "fn") (params : Val) (body : List Val) :
+    sem (F+1) st env (.list (.sym "fn" p0 :: params :: body) pos) =
+      (.ok (.fn params (.list (.sym "do" none :: body) none) env false pos), st) :=
+  Proofs.BigStepRefine.sem_fn hm params body
+
+/-- a call evaluates head and operands exactly once, left to right (the state threads through; the
+    first error stops the rest), BEFORE anything is called -/
+theorem args_once_left_to_right (x : Val) (xs : List Val) :
+    semList (F+1) st env [] = (.ok [], st) ∧
+    semList (F+1) st env (x :: xs) =
+      (match sem F st env x with
+       | (.ok v, st1) =>
+         (match semList F st1 env xs with
+          | (.ok vs, st2) => (.ok (v :: vs), st2)
+          | r => r)
+       | (.err e, st1) => (.err e, st1)
+       | (.oof, st1) => (.oof, st1)) :=
+  ⟨Proofs.BigStepRefine.semList_nil, Proofs.BigStepRefine.semList_cons x xs⟩
+
+/-- an error in the head or an operand is the error of the call -/
+theorem call_args_error {f : Val} {args : List Val} (hm : HeadNotMacro st env f) (hsf : a0sym f ∉ specialForms)
+    {e : Err} {st1 : State} (hargs : semList F st env (f :: args) = (.err e, st1)) :
+    sem (F+1) st env (.list (f :: args) pos) = (.err e, st1) :=
+  Proofs.BigStepRefine.sem_args_error hm hsf hargs
+
+/-- calling a closure: the parameters are bound in a NEW child of the scope the closure CAPTURED
+    (`fenv`, not the caller's `env`), and the body is evaluated there -/
+theorem closure_call_uses_captured_scope {f : Val} {args : List Val} (hm : HeadNotMacro st env f)
+    (hsf : a0sym f ∉ specialForms) {params body : Val} {fenv : Nat} {m : Bool} {fp : Option Pos} {vs : List Val}
+    {st1 : State} {data : List (String × Val)}
+    (hargs : semList F st env (f :: args) = (.ok (.fn params body fenv m fp :: vs), st1))
+    (hbind : bindParams params vs = .ok data) :
+    sem (F+1) st env (.list (f :: args) pos) = sem F (st1.newScope fenv data).1 (st1.newScope fenv data).2 body :=
+  Proofs.BigStepRefine.sem_call_closure hm hsf hargs hbind
+
+/-- `&` collects the remaining arguments as a list bound to the name after it -/
+theorem rest_params_collect {f : Val} {args : List Val} (hm : HeadNotMacro st env f) (hsf : a0sym f ∉ specialForms)
+    (nps : List (String × Option Pos)) (hamp : ∀ np ∈ nps, np.1 ≠ "&") (pa : Option Pos) (r : String)
+    (pr : Option Pos) (junk : List Val) (pp : Option Pos) {body : Val} {fenv : Nat} {m : Bool} {fp : Option Pos}
+    {vs : List Val} {st1 : State} (hl : nps.length ≤ vs.length)
+    (hargs : semList F st env (f :: args) =
+      (.ok (.fn (.list (mkParams nps ++ .sym "&" pa :: .sym r pr :: junk) pp) body fenv m fp :: vs), st1)) :
+    sem (F+1) st env (.list (f :: args) pos) =
+      sem F (st1.newScope fenv (ainsert r (.list (vs.drop nps.length) none) (bindFixed (nps.map (·.1)) vs []))).1
+        (st1.newScope fenv (ainsert r (.list (vs.drop nps.length) none) (bindFixed (nps.map (·.1)) vs []))).2 body :=
+  Proofs.BigStepRefine.sem_call_closure hm hsf hargs (Proofs.EvalLaws.bindParams_rest nps hamp pa r pr junk pp vs hl).1
+
+/-- too few or too many arguments: an (unpositioned) error in the state the arguments left; no scope is
+    created and the body is not evaluated -/
+theorem arity_errors_exact {f : Val} {args : List Val} (hm : HeadNotMacro st env f) (hsf : a0sym f ∉ specialForms)
+    (nps : List (String × Option Pos)) (hamp : ∀ np ∈ nps, np.1 ≠ "&") (pp : Option Pos)
+    {body : Val} {fenv : Nat} {m : Bool} {fp : Option Pos} {vs : List Val} {st1 : State}
+    (hl : vs.length ≠ nps.length)
+    (hargs : semList F st env (f :: args) = (.ok (.fn (.list (mkParams nps) pp) body fenv m fp :: vs), st1)) :
+    ∃ msg, sem (F+1) st env (.list (f :: args) pos) = (.err (.lisp (.goerr (msg ++ " (around do)")) none), st1) := by
+  rcases Nat.lt_or_gt_of_ne hl with h | h
+  · obtain ⟨msg, hb⟩ := (Proofs.EvalLaws.bindParams_too_few nps hamp pp vs h).1
+    exact ⟨msg, Proofs.BigStepRefine.sem_call_arity_error hm hsf hargs hb⟩
+  · obtain ⟨msg, hb⟩ := (Proofs.EvalLaws.bindParams_too_many nps hamp pp vs h).1
+    exact ⟨msg, Proofs.BigStepRefine.sem_call_arity_error hm hsf hargs hb⟩
+
+/-- calling a builtin: it is applied to the argument values; its error is positioned at the call -/
+theorem builtin_call {f : Val} {args : List Val} (hm : HeadNotMacro st env f) (hsf : a0sym f ∉ specialForms)
+    {name : String} {vs : List Val} {st1 : State}
+    (hargs : semList F st env (f :: args) = (.ok (.builtin name :: vs), st1)) :
+    sem (F+1) st env (.list (f :: args) pos) =
+      match callBuiltin F st1 name vs 0 with
+      | (.ok v, st2) => (.ok v, st2)
+      | (.err e, st2) => (.err (newLispError e (.list (f :: args) pos)), st2)
+      | (.oof, st2) => (.oof, st2) :=
+  Proofs.BigStepRefine.sem_call_builtin hm hsf hargs
+
+/-- a head that is neither a closure nor a builtin is an error (after the operands were evaluated) -/
+theorem non_callable_head_errors {f : Val} {args : List Val} (hm : HeadNotMacro st env f)
+    (hsf : a0sym f ∉ specialForms) {fv : Val} {vs : List Val} {st1 : State}
+    (hargs : semList F st env (f :: args) = (.ok (fv :: vs), st1))
+    (hnf : ∀ ps b e m p, fv ≠ .fn ps b e m p) (hnb : ∀ n, fv ≠ .builtin n) :
+    sem (F+1) st env (.list (f :: args) pos) = (.err (.lisp (.goerr "attempt to call non-function") none), st1) :=
+  Proofs.BigStepRefine.sem_call_non_callable hm hsf hargs hnf hnb
+
+/-! non-vacuity: the definition and the evaluator computed by the kernel on the harness environment
+    (the standing conditions hold on `initState`, see above) -/
+
+/-- run a program with the definition -/
+private def runSem (prog : Val) : R := sem 300 initState 0 prog
+
+/-- both give the integer `n` and the effects `tr` (most recent first) -/
+private def agreeOn (prog : Val) (n : Int) (tr : List Int) : Bool :=
+  isInt (run prog) n && isInt (runSem prog) n && traceIs (run prog) tr && traceIs (runSem prog) tr
+
+/-- a closure counter: `(let (c (atom 0) inc (fn () (trace! (swap! c (fn (n) (+ n 1)))))) (do (inc) (inc) (deref c)))`
+    ⇒ 2 with effects 1, 2 -/
+example : agreeOn
+    (L [S "let", L [S "c", L [S "atom", I 0],
+                   S "inc", L [S "fn", L [], L [S "trace!", L [S "swap!", S "c", L [S "fn", L [S "n"], L [S "+", S "n", I 1]]]]]],
+      L [S "do", L [S "inc"], L [S "inc"], L [S "deref", S "c"]]]) 2 [2, 1] = true := by
+  decide +kernel
+
+/-- fib with a traced argument:
+    `(do (def fib (fn (n) (do (trace! n) (if (< n 2) n (+ (fib (- n 1)) (fib (- n 2))))))) (fib 4))`
+    ⇒ 3 with effects 4 3 2 1 0 1 2 1 0 in this order -/
+example : agreeOn
+    (L [S "do",
+      L [S "def", S "fib", L [S "fn", L [S "n"],
+        L [S "do", L [S "trace!", S "n"],
+          L [S "if", L [S "<", S "n", I 2], S "n",
+            L [S "+", L [S "fib", L [S "-", S "n", I 1]], L [S "fib", L [S "-", S "n", I 2]]]]]]],
+      L [S "fib", I 4]]) 3 [0, 1, 2, 1, 0, 1, 2, 3, 4] = true := by
+  decide +kernel
+
+/-- a shadowing `let`: `(let (x 1) (do (trace! x) (let (x 2) (trace! x)) (trace! x)))` ⇒ 1 with effects 1 2 1 -/
+example : agreeOn
+    (L [S "let", L [S "x", I 1],
+      L [S "do", L [S "trace!", S "x"], L [S "let", L [S "x", I 2], L [S "trace!", S "x"]], L [S "trace!", S "x"]]])
+    1 [1, 2, 1] = true := by
+  decide +kernel
+
+/-- they agree on errors too: `(+ (trace! 1) (nope) (trace! 2))` is an error after the single effect 1 -/
+example : (let prog := L [S "+", L [S "trace!", I 1], L [S "nope"], L [S "trace!", I 2]];
+    isErr (run prog) && isErr (runSem prog) && traceIs (run prog) [1] && traceIs (runSem prog) [1]) = true := by
+  decide +kernel
+
+/-- a delegated form (a macro call) inside the fragment:
+    `(do (defmacro twice (fn (x) (list 'do x x))) (twice (trace! 7)))` ⇒ 7 with effects 7 7 -/
+example : agreeOn
+    (L [S "do",
+      L [S "defmacro", S "twice", L [S "fn", L [S "x"], L [S "list", L [S "quote", S "do"], S "x", S "x"]]],
+      L [S "twice", L [S "trace!", I 7]]]) 7 [7, 7] = true := by
+  decide +kernel
+
+end D5
+
+/-! ### END D5 -/
 
 end LispModel.Props.C01
